@@ -20,7 +20,7 @@ from checks.c07 import mc_and_replay
 SPEC = 'MPSTransform'
 INVARIANTS = ['Rep9', 'Divisible', 'Shape', 'InversionInvolution', 'InversionInvolutionPsi', 'SwapInvolution']
 PROPERTIES = ['RollRelabels', 'EnlargeKeeps', 'NormKept']
-ALL_OPS = {'apply_local_op', 'apply_local_op2', 'convert_form', 'apply_product_op', 'apply_local_term', 'swap_sites', 'permute_sites', 'add', 'group_sites',
+ALL_OPS = {'apply_local_op', 'apply_local_op2', 'convert_form', 'extract_enlarged_segment', 'apply_product_op', 'apply_local_term', 'swap_sites', 'permute_sites', 'add', 'group_sites',
            'group_split', 'enlarge_chi', 'compress_svd', 'canonical_form', 'spatial_inversion', 'roll_mps_unit_cell',
            'enlarge_mps_unit_cell', 'extract_segment'}
 
@@ -29,7 +29,7 @@ SEQ_OPS = {'apply_local_op', 'apply_local_op2', 'spatial_inversion', 'roll_mps_u
            'swap_sites', 'canonical_form'}
 
 
-ACTION_OPS = {'DoConvert9': 'convert_form', 'DoLocalOp': 'apply_local_op', 'DoLocalOp2': 'apply_local_op2', 'DoProductOp': 'apply_product_op', 'DoLocalTerm': 'apply_local_term',
+ACTION_OPS = {'DoConvert9': 'convert_form', 'DoExtractEnlarged': 'extract_enlarged_segment', 'DoLocalOp': 'apply_local_op', 'DoLocalOp2': 'apply_local_op2', 'DoProductOp': 'apply_product_op', 'DoLocalTerm': 'apply_local_term',
               'DoSwap': 'swap_sites', 'DoPermute': 'permute_sites', 'DoAdd': 'add', 'DoGroup': 'group_sites',
               'DoGroupSplit': 'group_split', 'DoEnlargeChi': 'enlarge_chi', 'DoCompress': 'compress_svd', 'DoCanon': 'canonical_form',
               'DoInversion': 'spatial_inversion', 'DoRoll': 'roll_mps_unit_cell', 'DoEnlarge': 'enlarge_mps_unit_cell',
@@ -186,13 +186,34 @@ def h_extract(rp, l, o):
     return dict(sig=dict(outside=l['first'] < 0 or l['last'] >= len(o['psi']['shape']) + 10))
 
 
+def h_extract_enlarged(rp, l, o):
+    bg = rp.psi
+    first, last = l['first'], l['last']
+    seg = hm.quiet(bg.extract_segment, first, last)
+    hm.quiet(seg.apply_local_op, l['i'] - first, l['name'], unitary=None, renormalize=False)
+    sig = dict(extend_left=l['nf'] < first, extend_right=l['nl'] > last,
+               one_sided=(l['nf'] < first) != (l['nl'] > last))
+    rp.next_sig = sig
+    try:
+        new, nf, nl = hm.quiet(seg.extract_enlarged_segment, bg, bg, first, last, new_first_last=(l['nf'], l['nl']))
+    except Exception as e:  # an exception of the code under test is an observable result
+        rp.violation('extract_enlarged_segment', 'exception', dict(error=repr(e)), error=type(e).__name__, **sig)
+        return False
+    rp.psi = new
+    rp.bc_src = rp.bc
+    if (nf, nl) != (l['nf'], l['nl']):
+        rp.violation('extract_enlarged_segment', 'returned-range', dict(got=[nf, nl]), **sig)
+        return False
+    return dict(sig=sig, inplace_ok=True)
+
+
 HANDLERS = dict(hm.BASE_HANDLERS)
 HANDLERS.update({
     'apply_local_op': h_local_op, 'apply_local_op2': h_local_op2, 'apply_product_op': h_product_op, 'apply_local_term': h_local_term,
     'swap_sites': h_swap, 'permute_sites': h_permute, 'add': h_add, 'group_sites': h_group, 'group_split': h_group_split,
     'enlarge_chi': h_enlarge_chi, 'compress_svd': h_compress, 'canonical_form9': h_canon9,
     'spatial_inversion': h_inversion, 'roll_mps_unit_cell': h_roll, 'enlarge_mps_unit_cell': h_enlarge,
-    'extract_segment': h_extract,
+    'extract_segment': h_extract, 'extract_enlarged_segment': h_extract_enlarged,
 })
 
 
